@@ -249,6 +249,17 @@ FIX["misc"] = lambda: topology(N("Machine", 0, [
     Pkg(1, [Core(1, [PU(2), PU(3)])], mem=[NUMA(1)], name="pkg\"name", subtype="Sub<type>"),
 ], misc=[Misc("top", subtype="MyMisc")], infos=[("MachineInfo", "x")]))
 
+# 5b. a chain of arity-1 levels with Misc, I/O and memory children at every level: whatever pair of identical
+# levels a KEEP_STRUCTURE filter merges, special children of both the removed and the kept object are moved
+FIX["chain"] = lambda: topology(N("Machine", 0, [
+    Pkg(0, [Die(0, [Cache("L2", 0, [Core(0, [PU(0, misc=[Misc("pu0-misc")]), PU(1)], misc=[Misc("core-misc-a"), Misc("core-misc-b")])],
+                          misc=[Misc("l2-misc")])],
+                misc=[Misc("die-misc")], mem=[NUMA(1, mem=1 << 28)],
+                io=[HostBridge([PCI("0000:40:00.0", io=[OSDev("die-eth", 4)])], bus=(0x40, 0x4f))])],
+        misc=[Misc("pkg-misc-a"), Misc("pkg-misc-b")], mem=[NUMA(0)],
+        io=[HostBridge([PCI("0000:00:02.0", cls="0300", io=[OSDev("pkg-card", 4)])], bus=(0, 0x3f))]),
+], misc=[Misc("machine-misc")], io=[OSDev("machine-orphan", 16)], mem=[NUMA(2, mem=1 << 27)]))
+
 # 6. I/O tree: host bridge > PCI bridge > PCI devices > OS devices of every type combination
 def _io():
     devs = []
